@@ -18,14 +18,18 @@ Init == LexInit(<<>>, <<>>) /\ phase = "gen"
 Grow == /\ phase = "gen" /\ Len(s) < MaxLen
         /\ \E c \in Chars : /\ s' = Append(s, c)
                             /\ txt' = Escape(s') 
-        /\ UNCHANGED <<rest, pos, esc, phase>>
+        /\ UNCHANGED <<rest, pos, esc, phase, printed>>
 Start == /\ phase = "gen"
          /\ \E r \in Rests : rest' = r /\ txt' = Escape(s) \o r
-         /\ phase' = "lex" /\ UNCHANGED <<s, pos, esc>>
-Next == Grow \/ Start \/ LexChar \/ Close \/ Eof
+         /\ phase' = "lex" /\ UNCHANGED <<s, pos, esc, printed>>
+\* the lexer on a text the printer did not write: an opening quote followed by the raw characters
+StartRaw == /\ phase = "gen"
+            /\ txt' = <<Q>> \o s /\ rest' = <<>> /\ printed' = FALSE
+            /\ phase' = "lex" /\ UNCHANGED <<s, pos, esc>>
+Next == Grow \/ Start \/ StartRaw \/ LexChar \/ Close \/ Eof
 Spec == Init /\ [][Next]_vars
 
-Emit == (phase \in {"closed", "eof"} /\ rest \in ReplayRests) =>
+Emit == (phase \in {"closed", "eof"} /\ printed /\ rest \in ReplayRests) =>
           PrintT(<<"CASE", ToJson([s |-> s, rest |-> rest, quoted |-> Escape(s),
                                    ok |-> phase = "closed",
                                    val |-> IF phase = "closed" THEN Value ELSE <<>>])>>)
